@@ -367,7 +367,9 @@ func cmdCheck(args []string) int {
 				to = 3
 			}
 			light := ""
-			if j.o.Expect == "unsat" && !(eng.allSolv) {
+			if j.o.Expect == "unsat" {
+				// the weakened variants take part in both tiers: their unsat is a valid refutation, and some
+				// obligations are only decided by them
 				light = lightScript(j.o.Script)
 			}
 			j.o.Res = SolveLight(j.o.Script, light, to, eng.allSolv && j.o.Expect == "unsat")
